@@ -34,6 +34,7 @@ def plan(ctx):
     cases = [("serial", i) for i in range(27 if t else 9)]
     cases += [("multi", i) for i in range(9 if t else 2)]
     cases += [("diskfull", i) for i in range(6 if t else 2)]
+    cases += [("intprior", i) for i in range(6 if t else 2)]
     return cases
 
 
@@ -330,6 +331,74 @@ def diskfull_case(ctx, g):
             pass
 
 
+def intprior_case(ctx, g):
+    """prior samples requested by COUNT with return_logprobs=True: the log-prior of the freshly drawn library is evaluated inside
+    the call (`JokerPrior.sample` -> one compiled evaluation per parameter).  A failure of the k-th of these evaluations is a
+    failing step like any other: it must reach the caller - not be logged and turned into an ln_prior with that term missing."""
+    import pytensor.graph.replace as pgr
+    import histlib as hl
+    rng = ctx.case_rng("intprior", g["index"])
+    pr = hl.small_problem(rng, n=int(rng.integers(3, 7)))
+    seed = hl.seed_of(rng)
+    N = int(rng.integers(30, 80))
+    rel = "a failing log-prior evaluation inside rejection_sample(prior_samples=<int>, return_logprobs=True) reaches the caller"
+    orig = pgr.vectorize_graph
+    state = dict(n=0, fail_at=None, fired=False)
+
+    class _Proxy:
+        """the graph `vectorize_graph` returns, failing at `.eval()` when armed (a compile / memory error at evaluation time)"""
+        def __init__(self, inner, armed):
+            self._inner, self._armed = inner, armed
+
+        def eval(self, *a, **k):
+            if self._armed:
+                state["fired"] = True
+                raise hl.InjectedOSError("injected fault at the evaluation of a log-prior term")
+            return self._inner.eval(*a, **k)
+
+    def vg(*a, **k):
+        state["n"] += 1
+        return _Proxy(orig(*a, **k), state["fail_at"] == state["n"])
+
+    def call():
+        j = pr.joker(rng=np.random.default_rng(seed), pool=hl.serial_pool())
+        out = j.rejection_sample(pr.data, N, return_logprobs=True, in_memory=bool(g["index"] % 2))
+        return hl.table_arrays(out)
+    pgr.vectorize_graph = vg
+    try:
+        state.update(n=0, fail_at=None)
+        ref = call()
+        total = state["n"]
+        ctx.count("intprior:log-prior evaluations per call", total)
+        for k in sorted({1, max(1, total // 2), total}):
+            state.update(n=0, fail_at=k, fired=False)
+            raised, out = None, None
+            try:
+                out = call()
+            except BaseException as e:      # noqa
+                if isinstance(e, (KeyboardInterrupt, SystemExit, MemoryError)):
+                    raise
+                raised = e
+            ctx.evaluated(rel, (g["index"], k))
+            ctx.count("fault:log-prior evaluation")
+            inp = dict(n_prior_samples=N, seed=seed, failing_evaluation=k, of=total, in_memory=bool(g["index"] % 2),
+                       problem=dict(p=pr.p, q=pr.q, K=pr.desc["K"]["kind"]))
+            if not state["fired"]:
+                ctx.count("fault-not-reached")
+            elif raised is None:
+                d = hl.arrays_diff(out, ref)
+                ctx.violation(rel, g, inp, dict(returned=hl.brief(out), differs_from_the_fault_free_call=d), dict(expected="the injected OSError"),
+                              f"evaluation #{k} of {total} log-prior terms failed inside the call; the call returned normally"
+                              + (" with an ln_prior that lacks that term" if d else ""), tags=dict(entry="rejection", form="int", target="log-prior evaluation"))
+                return
+            elif not isinstance(raised, hl.InjectedOSError):
+                ctx.violation(rel, g, inp, dict(raised=f"{type(raised).__name__}: {raised}"[:200]), dict(expected="the injected OSError"),
+                              "the injected failure must reach the caller unchanged", tags=dict(entry="rejection", form="int", target="log-prior evaluation"))
+                return
+    finally:
+        pgr.vectorize_graph = orig
+
+
 def run_case(ctx, g):
     import time
     t0 = time.time()
@@ -337,6 +406,8 @@ def run_case(ctx, g):
     try:
         if g["kind"] == "diskfull":
             diskfull_case(ctx, g)
+        elif g["kind"] == "intprior":
+            intprior_case(ctx, g)
         else:
             config_case(ctx, g, g["kind"])
     finally:
@@ -364,6 +435,7 @@ def post(ctx):
     ctx.require("faults at a later occurrence (k>1)", c["fault:occurrence>1"], 10)
     ctx.require("faults raised while a temp file existed", c["faults-while-temp-file-exists"], 15)
     ctx.require("runs on a user file", c["runs-with-user-file"], 10)
+    ctx.require("faults injected into the log-prior evaluation of a library requested by count", c["fault:log-prior evaluation"], 3)
     ctx.require("follow-up calls", c["follow-up-calls"], 30)
     ctx.require("follow-up calls after the user replaced the library file under the same name",
                 c["follow-up after the user replaced the library file under the same name"], 3)
